@@ -555,7 +555,8 @@ def random_float_scenario(rng, kind="sup", metric="euclidean", n=None, nu=0, nq=
 
 
 def extreme_unit_scenarios(rng, count, kind="sup", nq=2, nu=0):
-    """Dissimilarities in very small / very large units: features scaled by an exact power of two (2**-73, 2**-330, 2**60) under
+    """Dissimilarities in very small / very large units: features scaled by an exact power of two (2**-73, 2**-330, 2**60), or shifted by
+    a large common offset (2**25), under
     the positively homogeneous metrics, half of them through a pre-computed matrix (every second of those scaled once more).
     Weights that differ, differ - however small the difference is in absolute terms."""
     np = _np()
@@ -564,7 +565,12 @@ def extreme_unit_scenarios(rng, count, kind="sup", nq=2, nu=0):
         scn = random_float_scenario(rng, kind=kind, metric=("euclidean", "manhattan", "chebyshev")[i % 3], n=rng.randrange(3, 11), nu=nu, nq=nq,
                                     mode=("pre" if i % 2 else "metric"), classes=rng.choice([2, 3]), copies=False)
         scale = (2.0 ** -73, 2.0 ** -330, 2.0 ** 60, 1e-22)[i % 4]
-        scn["Z"] = (np.array(scn["Z"]) * scale).tolist()
+        if i % 5 == 4:
+            # a large common offset (epoch seconds, geo coordinates): differences far below single-precision resolution at that magnitude
+            scn["Z"] = (np.array(scn["Z"]) + 2.0 ** 25).tolist()
+            scn["present"] = "f64"
+        else:
+            scn["Z"] = (np.array(scn["Z"]) * scale).tolist()
         if not materialise_pre(scn):
             continue
         if scn["mode"] == "pre" and i % 4 == 1:
